@@ -110,7 +110,49 @@ def main():
                             or len(again) != len(d1):
                         fail('addterm-alias', {'n': n, 'first': k1,
                                                'second': k2})
+    inplace_scalar()
     print('EXPR-JSON ' + json.dumps(fails))
+
+
+def inplace_scalar():
+    """f *= a and f /= a for affine and piecewise-linear f, a > 0, a < 0
+    and a = 0: the value afterwards is a times (1/a times) the value before,
+    and a convex function times a negative number is concave"""
+    from cvxopt.modeling import max as mmax, min as mmin
+    x = variable(3, 'x')
+    x.value = matrix([1.0, -2.0, 3.0])
+    y = variable(1, 'y')
+    y.value = matrix([0.5])
+
+    def funcs():
+        return [('affine', 2.0 * x + 1.0),
+                ('affine-scalar', 3.0 * y - 2.0),
+                ('max', mmax(x) + 2.0 * y + 1.0),
+                ('min', mmin(x, 2.0 * x) - 1.0),
+                ('constant', 0.0 * y + 4.0)]
+    for a in (2.0, -3.0, 0.0, 1, -1, matrix([-0.5])):
+        av = a[0] if isinstance(a, matrix) else a
+        for (nm, f) in funcs():
+            before = list(f.value())
+            cvx0, ccv0 = f._isconvex(), f._isconcave()
+            try:
+                f *= a
+                got = list(f.value())
+            except Exception as e:
+                fail('imul-exceptions', {'function': nm, 'a': repr(a),
+                                         'raised': repr(e)})
+                continue
+            want = [av * t for t in before]
+            if len(got) != len(want) or any(
+                    abs(u - v) > 1e-9 * max(1, abs(u), abs(v))
+                    for u, v in zip(got, want)):
+                fail('imul-value', {'function': nm, 'a': repr(a),
+                                    'value after f *= a': got,
+                                    'a * value before': want})
+                continue
+            if av < 0 and (f._isconvex(), f._isconcave()) != (ccv0, cvx0):
+                fail('imul-value', {'function': nm, 'a': repr(a),
+                                    'curvature': 'not exchanged'})
 
 
 main()
